@@ -131,7 +131,7 @@ def oracle(ctx, hints, effort):
         sc["emmodel"], sc["nmax"] = em, int(rng.choice([16, 32]))
         splits = []
         nl = len(sc["thickness"])
-        if it % 3 == 1 and not active:
+        if it % 3 == 1 and it % 6 != 4 and not active:
             # optically deep, strongly scattering pack (optical depth well beyond 6) cut near the top of its deep layer: the new interface
             # lands at an optical depth where any depth-dependent shortcut of the solver would change the answer
             em = "iba"
@@ -144,6 +144,19 @@ def oracle(ctx, hints, effort):
             splits = [(1, round(float(np.exp(rng.uniform(np.log(0.01), np.log(0.4)))), 4), "transparent")]
             if rng.random() < 0.5:
                 splits.append((2, round(float(rng.uniform(0.05, 0.5)), 3), "flat"))
+        elif it % 6 == 4 and not active:
+            # kilometre-thick, hardly absorbing firn at L / P band (an ice sheet): thick but not opaque, so what lies below still matters
+            em = "iba"
+            sc = scenes.random_scene(rng, nlayer=2, lossless=False, microstructure="exponential", atmosphere=False, substrate="flat",
+                                     frequency=float(rng.choice([0.5e9, 1.4e9])))
+            sc["thickness"] = [round(float(rng.uniform(5, 50)), 2), round(float(rng.uniform(1200, 4000)), 1)]
+            sc["micro"]["corr_length"] = [2e-4, 3e-4]
+            sc["density"] = [350.0, 700.0]
+            sc["ice_permittivity"] = [3.18, 2e-5]
+            sc["emmodel"], sc["nmax"] = em, 16
+            splits = [(1, round(float(rng.uniform(0.2, 0.8)), 3), "transparent")]
+            if rng.random() < 0.5:
+                splits.append((1, round(float(rng.uniform(0.3, 0.7)), 3), "transparent"))
         else:
             for _ in range(int(rng.integers(1, 5))):
                 splits.append((int(rng.integers(0, nl)), round(float(rng.uniform(0.05, 0.95)), 3), str(rng.choice(["flat", "transparent"]))))
